@@ -52,11 +52,13 @@ def make_tree_doc(rng):
     labs = gen.labels(rng, n, style)
     meta = rng.random() < 0.4
     weights = rng.random() < 0.3
+    quote = gen.raw_underscore_quote if (style == "under" and rng.random() < 0.6) else gen.nexus_quote
+    block_comments = rng.random() < 0.4
 
     def tree_text():
         spec = gen.tree_spec(rng, labs, rng.choice(gen.SHAPES), rng.choice(["none", "int", "float", "mixed_none"]),
                              internal_labels=rng.random() < 0.3)
-        s = gen.spec_to_newick(spec, rooting=rng.choice([None, None, True, False]))
+        s = gen.spec_to_newick(spec, rooting=rng.choice([None, None, True, False]), quote=quote)
         if weights:
             s = rng.choice(["[&W 1/2] ", "[&W 0.25] ", "[&W 2] ", ""]) + s
         if meta and "'" not in s:
@@ -70,22 +72,28 @@ def make_tree_doc(rng):
         return {"schema": "newick", "text": text, "collections": [ntrees], "labels": labs}
     if fam == "nexus":
         nblocks = rng.choice([1, 1, 2])
-        text = "#NEXUS\nBEGIN TAXA;\n  DIMENSIONS NTAX=%d;\n  TAXLABELS %s;\nEND;\n" % (n, " ".join(gen.nexus_quote(l) for l in labs))
+        text = "#NEXUS\n%sBEGIN TAXA;\n  DIMENSIONS NTAX=%d;\n  TAXLABELS %s;\nEND;\n" % (
+            "[file comment]\n" if block_comments else "", n, " ".join(quote(l) for l in labs))
         cols = []
         for b in range(nblocks):
             text += "BEGIN TREES;\n"
+            if block_comments and rng.random() < 0.7:
+                text += rng.choice(["  [block comment]\n", "  [&blockmeta=1]\n", "  [one] [two]\n"])
             translate = rng.random() < 0.4
-            tok = dict((l, gen.nexus_quote(l)) for l in labs)
             if translate:
-                text += "  TRANSLATE\n" + ",\n".join("    %d %s" % (i + 1, gen.nexus_quote(l)) for i, l in enumerate(labs)) + "\n  ;\n"
+                text += "  TRANSLATE\n" + ",\n".join("    %d %s" % (i + 1, quote(l)) for i, l in enumerate(labs)) + "\n  ;\n"
+                if block_comments and rng.random() < 0.5:
+                    text += "  [after translate]\n"
             k = rng.randint(1, 3)
             for i in range(k):
                 s = tree_text()
                 if translate:
                     for i2, l in sorted(enumerate(labs), key=lambda x: -len(x[1])):
-                        s = s.replace(gen.nexus_quote(l), "\x00%d\x00" % (i2 + 1))
+                        s = s.replace(quote(l), "\x00%d\x00" % (i2 + 1))
                     s = s.replace("\x00", "")
                 text += "  TREE %s = %s\n" % (rng.choice(["t%d" % i, "'tree %d'" % i]), s)
+                if block_comments and rng.random() < 0.3:
+                    text += "  [between trees]\n"
             text += "END;\n"
             cols.append(k)
         return {"schema": "nexus", "text": text, "collections": cols, "labels": labs}
